@@ -10,7 +10,7 @@ from translate import c08_sites
 MANIFEST = dict(
     technique='Rocq proof (allocator refinement to a finite set, lifecycle NoDup invariants by induction over histories of several maps incl. copy/parse/collapse, nested Entity/Solid/Side world with bundled events, nav-node ID lifecycle, fixup indexes over whole histories) + ast site censuses with semantic normalisation + vm_compute correspondences',
     text='Theorems in Props/C08.v: the IDMan scan terminates and returns a positive unused ID keeping the search_pos invariant; from every invariant state IDMan is observationally equal to a plain finite set that hands out the desired ID if positive and free, else the least free positive ID (search_pos is unobservable); for every history over any number of maps of construction with arbitrary desired IDs, copy() within and across maps, removal, re-adding, destruction, VMF.parse of documents with colliding/missing/non-positive IDs and collapse_one, the existing objects of one kind that belong to one map have pairwise distinct positive IDs, provided IDs are released only by destructors and every copy site passes the destination map down; the same for entities, their brushes and the faces of those as ONE world whose events are the bundles of constructor/copy/remove/destructor calls made for a top-level object and its parts (order and desired IDs of the nested calls are part of the model); nav-node IDs held by existing entities are distinct and positive after every history of key set/delete/copy/remove/re-add/destroy provided remove_ent does not release them and copies register their node ID; replaceNN indexes of one entity are distinct and positive after the constructor on any list and every sequence of set/setdefault/update, del/pop, clear, rebuild by Entity.copy and copy/deepcopy/pickle. The premises (release sites, ID stores, map argument of every constructor/copy call inside copy() methods and collapse_one, every write into Entity._keys and into the fixup index table, node-ID shapes, fixup acceptance test / deferral / start index, hint guard) are regenerated from the source on every run by a fail-closed translator that normalises names, test spellings, branch order, single-use locals, helper functions and loop forms, and are kernel-checked; IDMan, EntityFixup histories, the entity lifecycle, three-map histories of entities/brushes/faces/brush groups/visgroups (per kind and as bundled events), node-ID histories and VMF.parse results are compared with the models on random inputs (exact IDs); histories over all ID kinds including collapse_one are searched on real VMF objects.',
-    note='Trusted: Coq kernel + vm_compute, translate/c08_sites.py, c08_keys.py, c08_norm.py (which call sites matter: copy() methods of the five ID classes and collapse_one; other functions that build objects from a foreign map are not in the census), hand models SM/IdMan.v, SM/IdLife.v, SM/IdFixupHist.v, SM/IdWorld.v, SM/IdNest.v, SM/IdNode.v (tied by differential runs), CPython refcount/gc for __del__ timing. Brush groups and visgroups are independent single-kind models (each class uses the manager of its kind: census obligation); their IDs are never released (no destructor: leak, modelled as such). collapse_one is an event of the nested model (which brushes and entities it copies, in which order, is computed by the model and compared with the real function; hidden objects, visgroup handling and the keyvalue rewriting are searched, not modelled). Node IDs reserved by Instance.fixup_key are never released (leak, not modelled). The deprecated Entity.keys dict (returned by reference) and a table handed to EntityFixup.__setstate__ bypass the censuses (listed as exposures). Maps opened with preserve_ids=True are exempt by definition.',
+    note='Trusted: Coq kernel + vm_compute, translate/c08_sites.py, c08_keys.py, c08_norm.py (which call sites matter: copy() methods of the five ID classes and collapse_one; other functions that build objects from a foreign map are not in the census), hand models SM/IdMan.v, SM/IdLife.v, SM/IdFixupHist.v, SM/IdWorld.v, SM/IdNest.v, SM/IdNode.v (tied by differential runs), CPython refcount/gc for __del__ timing. Brush groups and visgroups are independent single-kind models (each class uses the manager of its kind: census obligation); their IDs are never released (no destructor: leak, modelled as such). collapse_one is an event of the nested model (which brushes and entities it copies, in which order, is computed by the model and compared with the real function; hidden objects, visgroup handling and the keyvalue rewriting are searched, not modelled). Node IDs reserved by Instance.fixup_key are never released (a leak; modelled as the event NReserve and compared). The deprecated Entity.keys dict (returned by reference) and a table handed to EntityFixup.__setstate__ bypass the censuses (listed as exposures). Maps opened with preserve_ids=True are exempt by definition.',
 )
 
 IMPORTS = ['SV.SM.IdMan', 'SV.SM.IdManSpec', 'SV.SM.IdLife', 'SV.SM.IdFixupHist', 'SV.SM.IdWorld', 'SV.SM.IdNest', 'SV.SM.IdNode', 'SV.Gen.IdSites_gen', 'SV.Props.C08',
@@ -1065,7 +1065,21 @@ def gen_node_case(rng: random.Random, n_ev: int):
         d = rng.choice([-1, 0, -4, 1, 2, 2, 3, 3, 5, 9])
         return d, rng.choice([str(d), d])
 
+    def reserve(val):
+        # what collapse_one does with a node-link keyvalue: Instance.fixup_key reserves an ID nobody owns (never released)
+        from srctools import instancing
+        from srctools.fgd import ValueTypes
+        from srctools.math import Matrix, Vec
+        inst = instancing.Instance('inst', '', Vec(), Matrix())
+        out = inst.fixup_key(vmf, (), rng.choice([ValueTypes.TARG_NODE_SOURCE, ValueTypes.TARG_NODE_DEST]), val)
+        if _isint(val):
+            evs.append(f'NReserve {_zs(int(val))}')
+        return out
+
     for _ in range(n_ev):
+        if rng.random() < 0.07:
+            reserve(rng.choice(['-1', '0', '1', '2', '2', '3', '5', 'abc', '']))
+            continue
         r = rng.random()
         live = [i for i, e in enumerate(ents) if e[0] is not None]
         if r < 0.30 or not live:
@@ -1132,6 +1146,11 @@ def gen_node_case(rng: random.Random, n_ev: int):
                 vmf.add_ent(c)
                 ents.append([c, weakref.ref(c), None, True, True])
                 evs.append(f'NCopy {k}%nat')
+                if rng.random() < 0.4 and 'nodeid' in c:
+                    # ... followed by collapse_one's rewriting of the copy's keyvalue: reserve, then assign the reserved ID
+                    new = reserve(c['nodeid'])
+                    c['nodeid'] = new
+                    evs.append(f'NSet {len(ents) - 1}%nat {opt(int(new)) if _isint(new) else "None"}')
                 c = None
             o = None
     exp = []
@@ -1174,7 +1193,7 @@ def corr_node(ck: Ck) -> None:
             return
         bad += [lo + i for i in parse_coq_N_list(vals[0])]
     ck.obligation('correspondence:node', not bad,
-                  f"{len(cases)} histories of the 'nodeid' keyvalue, model nrun vs real Entity/VMF: {len(bad)} disagreements")
+                  f"{len(cases)} histories of the 'nodeid' keyvalue (incl. IDs reserved by Instance.fixup_key), model nrun vs real Entity/VMF: {len(bad)} disagreements")
     if bad:
         c = min((cases[i] for i in bad), key=lambda c: len(c[0]))
         ck.tie_broken.append("correspondence nav-node IDs (SM/IdNode.v nrun vs Entity.__setitem__/__delitem__/clear/__del__, VMF.add_ent/remove_ent)")
